@@ -107,13 +107,16 @@ CFG = dict(
                "kth < len, the only panic is T::none() of an integer type when padding is needed. vquantile: q outside [0,1] (NaN "
                "included) is Err; under the carrier's index law ceil((n-1)q) <= n-1 (proved at option R) the selected index is "
                "< n <= len and vquantile / vmedian never panic. "
-               "Partial: for vrank the statement 'the writes are a permutation of 0..len-1' is proved only as 'every write in range "
-               "and final buffer = model value' (the model value is fully initialised at option R by C12's vrank_spec); the index "
+               "Every output slot of vrank is written exactly once: on the uninitialised-buffer path the slots written are a "
+               "permutation of 0..len-1 (positional invariant), the O::empty / O::full paths perform no uset. "
+               "Partial: the index "
                "law and x == x at binary64 are not proved in Coq (no theory of primitive floats) and are exercised by the "
                "correspondence; std's sort_unstable_by / select_nth_unstable_by enter only as 'a permutation of the input' "
                "(insertion-sort model) and their comparator calls are not traced; the internal Vec<usize> of vrank is a std "
                "container: its model is a list and the harness cannot instrument it (exploration-strength on the Rust side: the "
-               "instrumented TraceView / TraceOut monitor every kernel run directly).",
+               "instrumented TraceView / TraceOut monitor every kernel run directly); the model-side KERNEL traces are tied to the code "
+               "through the value correspondence of the erased models (C03/C04/C05/C06/C12 runs) and are not yet compared cell by "
+               "cell with the instrumented implementation traces (only the driver traces are).",
     level_note="Trusted: Coq kernel; model of view.rs driver bodies; the instrumented containers implement tevec's public traits "
                "in the harness (Vec's own fast-path reads cannot be observed, only its writes); std Vec internals of vrank "
                "(idx_sorted) are not instrumented; memory effects themselves (an actual out-of-bounds write) are outside Coq.",
